@@ -108,6 +108,7 @@ theorem sstep_exact (cfg : Cfg) (p : List Instr) (œÉ : SSt) (brs) (h : sstep p œ
         simp only [SSt.ev, ev_setR, List.map_cons, hs] <;> try simp [SVal.ev, SFlag.ev, Cfg.get, cpuidOut, bitsOf, BitVec.and_assoc, BitVec.and_allOnes, and_ones, hs]
     | store r => simp at h; subst h; right; refine ‚ü®_, List.mem_singleton.mpr rfl, rfl, ?_‚ü©; simp only [SSt.ev, ev_setR, List.map_cons] <;> try simp [SVal.ev, SFlag.ev, Cfg.get, cpuidOut, bitsOf, BitVec.and_assoc, BitVec.and_allOnes, and_ones]
     | ret => simp at h; subst h; left; simp
+    | unsupported => simp at h
 
 theorem holds_addC {cfg : Cfg} {c : Option Cond} {acc : List Cond} (hc : condHolds cfg c = true)
     (ha : holdsAll cfg acc) : holdsAll cfg (addC c acc) := by
